@@ -144,8 +144,10 @@ theorem runCmd_sessions (sv : Server) (sid : Nat) (c : Cmd) :
     | paramSelf => exact (updSess_own sv sid [] _ (by intro _; exact ⟨rfl, rfl, rfl⟩)).2
     | paramMax n => exact (updSess_own sv sid [] _ (by intro _; exact ⟨rfl, rfl, rfl⟩)).2
     | paramRoute keys => exact (updSess_own sv sid [] _ (by intro _; exact ⟨rfl, rfl, rfl⟩)).2
+    | paramRouteF keys fs => exact (updSess_own sv sid [] _ (by intro _; exact ⟨rfl, rfl, rfl⟩)).2
     | unparamMax => exact (updSess_own sv sid [] _ (by intro _; split <;> exact ⟨rfl, rfl, rfl⟩)).2
     | unparamRoute => exact (updSess_own sv sid [] _ (by intro _; split <;> exact ⟨rfl, rfl, rfl⟩)).2
+    | unparamRouteF => exact (updSess_own sv sid [] _ (by intro _; split <;> exact ⟨rfl, rfl, rfl⟩)).2
     | getparams => simp only [runCmd, hs]
     | ins key before vals => simp only [runCmd, insertOrdered, hs]
     | reorder key before => simp only [runCmd, Muscle.Reflector.reorder, hs]
